@@ -17,6 +17,9 @@ func checkSkipsOnly(r *Run, p *Program, rule, construct string, f *ssa.Function,
 		if len(b.Instrs) == 0 || !w.Visited[b.Instrs[len(b.Instrs)-1]] {
 			continue
 		}
+		if !sameCycle(b, work.Block()) {
+			continue
+		}
 		for k := range b.Succs {
 			c := edgeCond(b, k)
 			if c == nil {
@@ -445,4 +448,27 @@ func ruleC03WriteAhead(r *Run, p *Program, rule string) {
 			r.check(okv, rule, "(*pogreb.index).delete:write-after-callback", p.Pos(c.Pos()), "the bucket is rewritten only when the key callback (which writes the delete record) returned no error", "index.delete removes the slot although the key callback returned an error (the delete record may not have been written)")
 		})
 	}
+}
+
+// sameCycle reports whether blocks a and b lie on a common cycle.
+func sameCycle(a, b *ssa.BasicBlock) bool {
+	return blockReaches(a, b) && blockReaches(b, a)
+}
+
+func blockReaches(a, b *ssa.BasicBlock) bool {
+	seen := map[*ssa.BasicBlock]bool{}
+	stack := append([]*ssa.BasicBlock{}, a.Succs...)
+	for len(stack) > 0 {
+		x := stack[len(stack)-1]
+		stack = stack[:len(stack)-1]
+		if x == b {
+			return true
+		}
+		if seen[x] {
+			continue
+		}
+		seen[x] = true
+		stack = append(stack, x.Succs...)
+	}
+	return false
 }
